@@ -83,6 +83,11 @@ def run(kind, x, y, n, kw, rng=None):
     """construct the strategy object and ask it; when an rng is given, in a quarter of the cases another object of the
     SAME class (other data, other factor, other parameters) is constructed - and sometimes used - in between: objects
     must not share state through their class"""
+    if rng is not None and rng.integers(0, 6) == 0:
+        # an earlier, equal request whose answer the caller has meanwhile edited in place (unit conversion, clipping):
+        # answers are the caller's own arrays, the next equal request starts from the averages again
+        first = cls(kind)(np.array(x, copy=True), np.array(y, copy=True), n, **kw).rfa()
+        callform.scribble(first, [])
     obj = build(rng, kind, x, y, n, kw)
     if rng is not None and rng.integers(0, 4) == 0:
         n2 = gen_n(rng)
